@@ -1,0 +1,22 @@
+//go:build verif
+
+package peer
+
+// Machine-checked contracts for /verif (govc). Comment-only, compiled only
+// with -tags verif; changes no behaviour.
+
+//@ func NewConnection
+//@ prop C38
+//@ ensures result.streamAlloc != nil
+//@ ensures result.streamAlloc.isDialer == transport.connIsDialer(conn)
+//@ ensures result.isDialer == transport.connIsDialer(conn)
+//@ ensures result.streamAlloc.next >= 1 && result.streamAlloc.next % 2 == ite(result.streamAlloc.isDialer, 1, 0)
+
+//@ func (*Connection).NextStreamID
+//@ prop C38
+//@ requires c.streamAlloc != nil
+//@ requires c.streamAlloc.next >= 1 && c.streamAlloc.next % 2 == ite(c.streamAlloc.isDialer, 1, 0)
+//@ requires c.streamAlloc.next < 9223372036854775808
+//@ ensures result == old(c.streamAlloc.next)
+//@ ensures c.streamAlloc.next == old(c.streamAlloc.next) + 2
+//@ ensures result != 0 && result % 2 == ite(c.streamAlloc.isDialer, 1, 0)
